@@ -18,6 +18,8 @@ OBLIGATIONS = [
     "NanoVerif.C16.linParam_affine",
     "NanoVerif.C16.radial_similarity",
     "NanoVerif.TrProofs.map_otsvg_space_eq",
+    "NanoVerif.C13.otsvg_fill_correct",
+    "NanoVerif.C13.applyPaintFill_eq_fillOf",
 ]
 DESIGN_REF = "DESIGN.md §5 C02"
 LEVEL_TEXT = ("Partial proof (per-element theorems + sampling of real documents). Proved in Lean: the OT-SVG placement affine equals the y-flipped "
@@ -110,6 +112,89 @@ def shared_radial_case(rng, fmt="picosvg"):
     return {"id": f"shared-radial:{fmt}:{rng.getrandbits(32)}", "seed": 0, "fmt": fmt, "svgs": svgs, "config": cfg, "codepoints": [[0xE000], [0xE001]]}
 
 
+
+def suite_apply_paint_model(ctx, res, n):
+    """Tie for Model/ColrSvg.lean `applyPaintFill` (theorem C02.otsvg_fill_correct): the real svg._apply_paint on a linear gradient under a chain
+    of transform paints vs the Lean function; the emitted <linearGradient> is compared by its parameter at probe points."""
+    from fractions import Fraction as F
+    from lxml import etree
+    from nanoemoji import svg as nsvg
+    from nanoemoji.paint import PaintLinearGradient, PaintTransform, PaintTranslate, PaintScale, ColorStop, Extend
+    from nanoemoji.colors import Color
+    from nanoemoji.glyph_reuse import GlyphReuseCache
+    from picosvg.svg_transform import Affine2D
+    from picosvg.geometric_types import Point
+    from harness.common import fr
+    from harness import render
+
+    rng = ctx.rng
+    ops, meta = [], []
+    for _ in range(n):
+        x0, y0 = rng.randint(0, 400), rng.randint(0, 400)
+        x1, y1 = x0 + rng.randint(150, 500), y0 + rng.randint(-100, 400)
+        x2, y2 = (x0 - (y1 - y0), y0 + (x1 - x0)) if rng.random() < 0.5 else (x0 + rng.randint(-300, 300), y0 + rng.randint(100, 500))
+        if (x1 - x0) * (y2 - y0) - (y1 - y0) * (x2 - x0) == 0:
+            y2 += 77
+        stops = (ColorStop(0.0, Color.fromstring("red")), ColorStop(1.0, Color.fromstring("blue")))
+        paint = PaintLinearGradient(stops=stops, extend=Extend.PAD, p0=Point(x0, y0), p1=Point(x1, y1), p2=Point(x2, y2))
+        cp = {"k": "lin", "g": [str(v) for v in (x0, y0, x1, y1, x2, y2)], "l": "0"}
+        for _k in range(rng.choice([0, 1, 1, 2, 3])):
+            kind = rng.choice(["translate", "scale", "matrix"])
+            if kind == "translate":
+                dx, dy = rng.randint(-200, 200), rng.randint(-200, 200)
+                paint, m = PaintTranslate(paint=paint, dx=dx, dy=dy), (1, 0, 0, 1, dx, dy)
+            elif kind == "scale":
+                sx, sy = rng.choice([F(1, 2), F(3, 2), F(-1), F(5, 4)]), rng.choice([F(1, 2), F(3, 4), F(2)])
+                paint, m = PaintScale(paint=paint, scaleX=float(sx), scaleY=float(sy)), (sx, 0, 0, sy, 0, 0)
+            else:
+                m = (rng.choice([F(1), F(3, 4), F(5, 4)]), rng.choice([F(0), F(1, 4)]), rng.choice([F(0), F(-1, 4)]), rng.choice([F(1), F(1, 2)]),
+                     rng.randint(-100, 100), rng.randint(-100, 100))
+                paint = PaintTransform(paint=paint, transform=tuple(float(v) for v in m))
+            cp = {"k": "transform", "m": [fr(F(v)) for v in m], "child": cp}
+        s = rng.choice([F(1, 8), F(1, 10), F(128, 1000)])
+        U = (s, 0, 0, -s, rng.choice([0, 10]), rng.choice([80, 100, 97]))
+        defs = etree.Element("defs")
+        el = etree.Element("path")
+        try:
+            nsvg._apply_paint(defs, el, paint, Affine2D(*[float(v) for v in U]), nsvg.ReuseCache(0.1, GlyphReuseCache(0.1)), Affine2D.identity())
+        except Exception as e:  # noqa
+            res.stat("apply-paint:real-raises:" + type(e).__name__)
+            continue
+        g = defs[0] if len(defs) else None
+        real = None if g is None else {"x1": float(g.get("x1", 0)), "y1": float(g.get("y1", 0)), "x2": float(g.get("x2", 0)), "y2": float(g.get("y2", 0)),
+                                       "gt": tuple(Affine2D.fromstring(g.get("gradientTransform"))) if g.get("gradientTransform") else (1, 0, 0, 1, 0, 0),
+                                       "tag": g.tag, "fill": el.get("fill")}
+        ops.append({"op": "apply-paint", "paint": cp, "U": [fr(F(v)) for v in U]})
+        meta.append((cp, real))
+    pts = [(20.0, 30.0), (70.0, 40.0), (50.0, 80.0), (10.0, 90.0), (90.0, 10.0)]
+    for (cp, real), m in zip(meta, ctx.driver.run(ops)):
+        res.count(key=("apply-paint", stable_hash(cp)), nontrivial=cp["k"] == "transform")
+        mf = m.get("fill")
+        if not mf or mf["k"] != "lin" or real is None or real["tag"] != "linearGradient":
+            res.add_tie_break("svg._apply_paint vs applyPaintFill: kind of fill", {"paint": cp}, m, real)
+            continue
+        gg = [float(F(v)) for v in mf["g"]]
+        v1, v2 = (gg[2] - gg[0], gg[3] - gg[1]), (gg[4] - gg[0], gg[5] - gg[1])
+        cr = abs(v1[0] * v2[1] - v1[1] * v2[0])
+        cond = (math.hypot(*v1) * math.hypot(*v2)) / cr if cr > 0 else float("inf")
+        if cond > 8:
+            res.stat("apply-paint:ill-conditioned")
+            continue
+        inv = render.inv(real["gt"])
+        rlen = max(math.hypot(real["x2"] - real["x1"], real["y2"] - real["y1"]), 1e-6)
+        bad = None
+        for z in pts:
+            tm = render.linear_param((gg[0], gg[1]), (gg[2], gg[3]), z, (gg[4], gg[5]))
+            zz = render.app(inv, z) if inv else z
+            tr_ = render.linear_param((real["x1"], real["y1"]), (real["x2"], real["y2"]), zz)
+            if tm is None or tr_ is None or abs(tm - tr_) > (5e-3 + 3e-3 / rlen) * (1 + abs(tm)) * max(1.0, cond):
+                bad = (z, tm, tr_)
+                break
+        res.stat("apply-paint:" + ("agree" if bad is None else "differ"))
+        if bad is not None:
+            res.add_tie_break(f"svg._apply_paint vs applyPaintFill: gradient parameter at {bad[0]}: model {bad[1]} real {bad[2]}", {"paint": cp}, m, real)
+
+
 def suite_fonts(ctx, res, n):
     for _ in range(max(2, n // 10)):
         case = shared_radial_case(ctx.rng, ctx.rng.choice(["picosvg", "picosvgz"]))
@@ -160,6 +245,7 @@ def run(ctx, res):
         res.count(key=("corpus", c["id"]), nontrivial=True)
         if "err" not in out:
             check_otsvg_font(ctx, res, c, out)
+    suite_apply_paint_model(ctx, res, ctx.budget(150, 3000))
     suite_fonts(ctx, res, ctx.budget(40, 1000))
 
 
